@@ -19,6 +19,7 @@ import dask.array as da
 from pbmc import bind_repo, report, factory, invariants, catalogue
 
 pb = bind_repo()
+factory.PROVENANCE_ENABLED = False      # this check tracks the identity of the buffers the signals are built on
 PID = "C14"
 DEPTH = {"quick": 2, "thorough": 3}
 
